@@ -57,6 +57,17 @@ Theorem C08_lr_unsupported_items_parsed : unsupported_facts = true.
 Proof. exact unsupported_facts_ok. Qed.
 Print Assumptions C08_lr_unsupported_items_parsed.
 
+(* REFUTED reading "a comment is trivia everywhere": a comment on the last line of a file without a
+   final newline turns an accepted token sequence into a syntax error at end of input (the same
+   sequence with the NEWLINE, or without the comment, is accepted).  Replayed on the real
+   parser: `proto a\nmessage M {} // tail` -> GrammarError "Grammar error at eof", line 0. *)
+Theorem C08_lr_comment_at_eof_refuted :
+  exists ts, parse ts = SyntaxError (List.length ts) eof (match parse ts with SyntaxError _ _ rs => rs | _ => [] end) /\
+             (exists rs, parse (ts ++ [term_id "NEWLINE"%string]) = Accept rs) /\
+             (exists rs, parse (removelast ts) = Accept rs).
+Proof. exact comment_eof_refuted. Qed.
+Print Assumptions C08_lr_comment_at_eof_refuted.
+
 (* completeness on the expression sub-language, bounded: every expression tree of LRFacts.expr_domain (4141
    trees of depth <= 3 over the four operators) prints (minimal parentheses) to tokens the tables parse back to the
    SAME tree (PARTIAL: the statement for all trees is evaluated per generated tree, not proved) *)
